@@ -2,6 +2,7 @@ package main
 
 import (
 	"bytes"
+	"encoding/binary"
 	"errors"
 	"fmt"
 	"math/rand"
@@ -378,7 +379,80 @@ func xorDist(key []byte, id p2p.PeerID) []byte {
 }
 
 // dhtOracle: C20 stated on the implementation with global knowledge of the simulated network.
+// dhtFabricatorCase: responders that make up fresh peers for as long as they are asked. With a key shorter than the ids
+// many ids are equally far from the key; a responder that only ever names peers no nearer than itself must not keep the
+// operation going: every operation ends after the initial peers (C20: terminates whatever peer lists are returned,
+// fabricated ones included). A second network names peers that really are nearer, a bounded number of times: those
+// are followed.
+func dhtFabricatorCase(r *rand.Rand, fail func(string, ...any)) {
+	for _, op := range []string{"get", "put"} {
+		for _, nearer := range []int{0, 5} {
+			key := hx.Bytes(r, 2)
+			var start kademlia.NodeInfo
+			copy(start.ID[:], key)
+			start.ID[1] ^= 0x40 // two bytes visible to the two-byte key
+			start.ID[2] = 1
+			asks, fresh := 0, 0
+			const limit = 300
+			peersOf := func(n kademlia.NodeInfo) (out []kademlia.NodeInfo, err error) {
+				asks++
+				if asks > limit {
+					return nil, errors.New("gone")
+				}
+				for k := 0; k < 2; k++ { // the same two leading bytes: exactly as far from the key as n
+					fresh++
+					x := n
+					binary.BigEndian.PutUint32(x.ID[4:], uint32(fresh))
+					out = append(out, x)
+				}
+				if nearer > 0 && n.ID[1] != key[1] { // one peer that is nearer, until the distance in byte 1 is used up
+					x := n
+					d := (n.ID[1] ^ key[1]) >> 1
+					x.ID[1] = key[1] ^ d
+					out = append(out, x, n)
+				}
+				return out, nil
+			}
+			done := make(chan struct{})
+			go func() {
+				defer close(done)
+				defer func() { recover() }()
+				if op == "get" {
+					kademlia.DHTGet(kademlia.DHTGetParams{Initial: []kademlia.NodeInfo{start}, Key: key,
+						Ask: func(n kademlia.NodeInfo, _ kademlia.GetReq) (kademlia.GetRes, error) {
+							ps, err := peersOf(n)
+							return kademlia.GetRes{Closer: ps}, err
+						}})
+				} else {
+					kademlia.DHTPut(kademlia.DHTPutParams{Initial: []kademlia.NodeInfo{start}, Key: key, Value: []byte("v"), TTL: time.Minute,
+						Ask: func(n kademlia.NodeInfo, _ kademlia.PutReq) (kademlia.PutRes, error) {
+							ps, err := peersOf(n)
+							return kademlia.PutRes{Accepted: true, Closer: ps}, err
+						}})
+				}
+			}()
+			select {
+			case <-done:
+			case <-time.After(5 * time.Second):
+				fail("%s with fabricating responders did not terminate within 5s", op)
+				continue
+			}
+			want := 1
+			if nearer > 0 {
+				want = 8 // the nearer chain halves the distance in byte 1: 0x40, 0x20, ..., 0x01, 0
+			}
+			if asks > want {
+				fail("%s with a 2-byte key: responders that only make up peers no nearer than themselves kept the operation going for %d asks (the nearer peers they name justify %d)", op, asks, want)
+			}
+		}
+	}
+}
+
 func dhtOracle(r *rand.Rand, n int, tier string, infile string) (cases int, fails []string) {
+	if oracleOffset == 0 {
+		dhtFabricatorCase(r, func(f string, a ...any) { fails = append(fails, fmt.Sprintf(f, a...)) })
+		cases += 4
+	}
 	check := func(op string, key []byte, param int, initial []p2p.PeerID, net *dhtNet) {
 		cases++
 		run := dhtDo(op, key, param, initial, net)
